@@ -19,7 +19,7 @@
     correspondence run evaluates on every generated history). *)
 From Coq Require Import List String Bool Arith NArith Relations.
 From Verif Require Import Caco.Load Caco.LoadProofs Caco.Build Caco.BuildProofs Caco.BuildGen Gen.CacoBuild.
-From Verif Require Import Caco.LoadSessionGen Caco.BuildSession Caco.BuildSessionProofs Caco.BuildParse Caco.BuildLinks Caco.BuildSessionGen.
+From Verif Require Import Caco.LoadSessionGen Caco.BuildSession Caco.BuildSessionProofs Caco.BuildParse Caco.BuildLinks Caco.BuildDepKey Caco.BuildSessionGen.
 Import ListNotations.
 Local Open Scope string_scope.
 
@@ -468,6 +468,36 @@ Theorem C10_read_through_link_refuted :
   through_content tg' (content_at (w_out w2) "p0/links.fileset").
 Proof. exact read_through_link_refuted. Qed.
 Print Assumptions C10_read_through_link_refuted.
+
+(** ** Dependency digests are keyed by the exact name (Caco/BuildDepKey.v)
+
+    [C10_digest_determines_output] needs the action digest to hold the digest
+    of EVERY dependency: the hashed map has one entry per dependency name, and
+    names that differ only in letter case are different names. *)
+Theorem C10_digest_covers_every_dependency : forall (l : list (name * digest)) n d,
+  NoDup (map fst l) -> In (n, d) l -> dl_lookup n (canon_deps l) = Some d.
+Proof. exact digest_covers_every_dependency. Qed.
+Print Assumptions C10_digest_covers_every_dependency.
+
+(** The key expressions in the current source are the names themselves. *)
+Theorem C10_dep_key_is_name : dep_key_is_nameb = true.
+Proof. exact gen_dep_key_is_name. Qed.
+Print Assumptions C10_dep_key_is_name.
+
+(** A key that folds names (lower-casing): README.txt and Readme.txt share one
+    entry, README.txt's digest is not in the map, and editing it leaves the
+    action digest as it was. *)
+Theorem C10_folding_key_drops_dependency_refuted :
+  let up := DSrc "pkg/README.txt" (mkStat 6 1001 420 "") in
+  let up' := DSrc "pkg/README.txt" (mkStat 14 1010 420 "") in
+  let lo := DSrc "pkg/Readme.txt" (mkStat 6 1002 420 "") in
+  canon_deps_keyed lower [("pkg/README.txt", up); ("pkg/Readme.txt", lo)] =
+  canon_deps_keyed lower [("pkg/README.txt", up'); ("pkg/Readme.txt", lo)] /\
+  canon_deps_keyed lower [("pkg/README.txt", up); ("pkg/Readme.txt", lo)] = DCons "pkg/readme.txt" lo DNil /\
+  canon_deps [("pkg/README.txt", up); ("pkg/Readme.txt", lo)] <>
+  canon_deps [("pkg/README.txt", up'); ("pkg/Readme.txt", lo)].
+Proof. exact folding_key_drops_dependency_refuted. Qed.
+Print Assumptions C10_folding_key_drops_dependency_refuted.
 
 (** ** Non-vacuity: a concrete workspace and history. *)
 Local Open Scope N_scope.
